@@ -521,10 +521,29 @@ theorem mdr_full_all (hE : ElemsSpec cfg k v P eb) (hP : ∀ g, P g) (hS : MRSpl
   induction d with
   | zero =>
     intro t x s depth _ hwf _ _ _
-    exact mdr_full_leaf eb rs cfg k v P hE hP t x s _ hwf.1 hwf.2
+    have h := mdr_full_leaf eb rs cfg k v P hE hP t x s (MapMetaDataSlab_Remove (envD cfg.T eb rs) depth) hwf.1 hwf.2
+    have e : MTree.remove cfg 0 t k s.ctx = MDataSlab.remove cfg (t : MDataSlab r) k s.ctx := rfl
+    rw [e]
+    cases hq : MDataSlab.remove cfg (t : MDataSlab r) k s.ctx with
+    | error err =>
+      rw [hq] at h
+      obtain ⟨tt, ss, h1, h2⟩ := h
+      exact ⟨tt, ss, h1, fun _ => h2 trivial⟩
+    | ok q =>
+      obtain ⟨rk, rv, t', c'⟩ := q
+      rw [hq] at h
+      exact h
   | succ d ih =>
     intro t x s depth hd hwf hnd hh hsz
-    exact mdr_full_level eb rs cfg k hS hM hmax hmin hk d ih t x s depth hd hwf hnd hh hsz
+    have h := mdr_full_level eb rs cfg k hS hM hmax hmin hk d ih t x s depth hd hwf hnd hh hsz
+    cases hq : MTree.remove cfg (d + 1) t k s.ctx with
+    | error err =>
+      rw [hq] at h
+      exact h
+    | ok q =>
+      obtain ⟨rk, rv, t', c'⟩ := q
+      rw [hq] at h
+      exact h
 
 /-- THE WHOLE `MapSlab.Remove` over a heap, every branch (store / `SplitChildSlab` / `MergeOrRebalanceChildSlab`), for ANY
     restructuring record `rs` that satisfies the two tails: on a tree held by the heap the generated dispatch is the
